@@ -1812,3 +1812,19 @@ for _pid in ("C09", "C10"):
       "            elif rule_1(j, i, P) or rule_2(j, i, P) or rule_3(j, i, P) or rule_4(j, i, P):\n", rule="ORIENT.flag", what="a pass that only orients j -> i edges ends the loop")
     V("%s-silent-meek-flag-after-branches" % _pid.lower(), _pid, "undecided", UT, "            elif rule_1(j, i, P) or rule_2(j, i, P) or rule_3(j, i, P) or rule_4(j, i, P):\n                oriented_edges = True\n",
       "            elif rule_1(j, i, P) or rule_2(j, i, P) or rule_3(j, i, P) or rule_4(j, i, P):\n                oriented_edges = oriented_edges or True\n", what="flag raised by an or-update")
+
+# ------------------------------------------------------------------------------- round 12 inspired (C20 / C04: factories rewritten as location-scale transforms of a standard draw)
+_LS_HELP = "def _loc_scale(standard, loc, scale):\n    return lambda n: loc + scale * standard(n)\n\n\ndef normal(mean=0, var=1):"
+def _ls(unif="hi - lo", sd="var**0.5", lap="scale"):
+    return [(NO, "def normal(mean=0, var=1):", _LS_HELP),
+            (NO, "    return lambda n: np.random.normal(mean, var**0.5, n)", "    return _loc_scale(np.random.standard_normal, mean, %s)" % sd),
+            (NO, "    return lambda n: np.random.uniform(lo, hi, n)", "    return _loc_scale(np.random.random_sample, lo, %s)" % unif),
+            (NO, "    return lambda n: np.random.laplace(mean, scale, n)", "    return _loc_scale(lambda n: np.random.laplace(size=n), mean, %s)" % lap)]
+def VL(id, prop, expect, edits, **kw):
+    VARIANTS.append(dict(id=id, prop=prop, expect=expect, edits=edits, **kw))
+VL("c20-silent-location-scale", "C20", "silent", _ls(), rule=None, what="all three laws as loc + scale * standard draw, parameters right")
+VL("c04-silent-location-scale", "C04", "silent", _ls(), rule=None, what="noise.normal as mean + var**0.5 * standard_normal(n)")
+VL("c20-location-scale-uniform-hi", "C20", "fire", _ls(unif="hi"), rule="LAW.uniform", what="uniform(lo, hi) lies in [lo, lo + hi)")
+VL("c20-location-scale-normal-var", "C20", "fire", _ls(sd="var"), rule="LAW.normal", what="variance used as standard deviation")
+VL("c04-location-scale-normal-var", "C04", "fire", _ls(sd="var"), rule="UNIT.noise-normal", what="variance used as standard deviation")
+VL("c20-location-scale-laplace-sqrt", "C20", "fire", _ls(lap="scale**0.5"), rule="LAW.laplace", what="square root of the scale")
